@@ -47,7 +47,8 @@ TRUSTED_BASE = [
 
 SAMPLE_DIR = os.path.join(common.REPO, "tests", "sample_test_data")
 TOL = 1e-8
-MARGIN = 1e-7
+MARGIN = 1e-7          # rint arguments (fractional units), distance gaps, cutoff comparisons
+EDGE_MARGIN = 1e-9     # pair distance vs histogram bin edge, relative to the box size (float error is ~1e-15 relative)
 
 
 # ----------------------------------------------------------------------------- configurations
@@ -56,13 +57,17 @@ def fstr(x):
     return repr(float(x))
 
 
-def gen_config(rng, d, N, K=1, T=1, cell="orth", ppp=None, Lrange=(3.0, 5.0), spread=None):
-    """decimal-grid configuration; cell ∈ orth | cubic | tri ; open clusters have ppp = 0"""
+def gen_config(rng, d, N, K=1, T=1, cell="orth", ppp=None, Lrange=(3.0, 5.0), spread=None, minsep=0.0):
+    """decimal-grid configuration; cell ∈ orth | cubic | tri ; open clusters have ppp = 0.  Box lengths have three
+    decimals with an odd last digit, positions three decimals: no pair can sit exactly on a half-cell tie of an
+    orthogonal cell.  minsep: minimum (minimum-image) separation enforced in frame 0 by rejection."""
+    def blen():
+        v = int(round(rng.uniform(*Lrange) * 1000)) | 1
+        return f"{v // 1000}.{v % 1000:03d}"
     if cell == "cubic":
-        l0 = common.dec(rng, *Lrange, nd=2)
-        L = [l0] * d
+        L = [blen()] * d
     else:
-        L = [common.dec(rng, *Lrange, nd=2) for _ in range(d)]
+        L = [blen() for _ in range(d)]
     H = [[L[i] if i == j else "0" for j in range(d)] for i in range(d)]
     if cell == "tri":
         for i in range(d):
@@ -70,8 +75,22 @@ def gen_config(rng, d, N, K=1, T=1, cell="orth", ppp=None, Lrange=(3.0, 5.0), sp
                 H[i][j] = common.dec(rng, -0.8, 0.8, nd=2)
     types = [1 + (i % K) for i in range(N)]
     rng.shuffle(types)
+    Hf = np.array([[float(x) for x in row] for row in H])
+    Hinv = np.linalg.inv(Hf)
+    per = np.array(ppp if ppp is not None else [1] * d, dtype=float)
+    base = []
+    tries = 0
+    while len(base) < N:
+        p = [round(rng.uniform(0, float(L[k]) if spread is None else spread), 3) for k in range(d)]
+        tries += 1
+        if minsep > 0 and base and tries < 20000:
+            diff = np.array(base) - np.array(p)
+            f = diff @ Hinv
+            r = (f - np.rint(f) * per) @ Hf
+            if np.sqrt((r ** 2).sum(axis=1)).min() < minsep:
+                continue
+        base.append(p)
     pos = []
-    base = [[rng.uniform(0, float(L[k])) if spread is None else rng.uniform(0, spread) for k in range(d)] for _ in range(N)]
     for t in range(T):
         pos.append([[f"{base[i][k] + (0 if t == 0 else rng.uniform(-0.25, 0.25) * t ** 0.5):.3f}" for k in range(d)] for i in range(N)])
     return {"d": d, "N": N, "T": T, "L": L, "H": H, "ppp": ppp if ppp is not None else [1] * d, "types": types, "pos": pos,
@@ -430,7 +449,7 @@ def gr_guard(A, P):
         D, tie = pair_geom(A, t)
         if tie < MARGIN:
             return False, "rint-tie"
-        if edge_margin(offdiag(D), edges) < MARGIN * max(1.0, float(A["L"].max())):
+        if edge_margin(offdiag(D), edges) < EDGE_MARGIN * max(1.0, float(A["L"].max())):
             return False, "bin-edge"
     return True, ""
 
@@ -902,9 +921,18 @@ def plan(run):
     quick = run.tier == "quick"
     cases = []
 
-    def add(routine, cfg, params, kinds=None, reps=1):
+    def add(routine, cfg, params, kinds=None, reps=1, alt=None):
+        """alt: {key: [candidate values]} — the first candidate whose margin guard passes is used (e.g. a bin width
+        for which no pair of a sample frame sits on a bin edge)"""
         if cfg is None:
             return
+        if alt:
+            A = arrays(cfg)
+            (key, cands), = alt.items()
+            for v in cands:
+                if ROUTINES[routine]["guard"](A, dict(params, **{key: v}))[0]:
+                    params = dict(params, **{key: v})
+                    break
         for kind in (kinds or ROUTINES[routine]["tfs"]):
             if not tf_allowed(routine, kind, cfg, params):
                 continue
@@ -912,7 +940,7 @@ def plan(run):
                 cases.append({"routine": routine, "cfg": cfg, "params": params, "tfkind": kind, "tfseed": rng.randint(0, 10 ** 9)})
 
     reps = 1 if quick else 6
-    ncfg = 1 if quick else 8
+    ncfg = 2 if quick else 8
     for _ in range(ncfg):
         # g(r): 2D/3D, orthogonal and triclinic, 1-4 species, 1-2 frames
         for d, cell, K in ([(2, "tri", 2), (3, "orth", 3)] if quick else [(2, "orth", 1), (2, "tri", 2), (3, "orth", 3), (3, "tri", 4), (3, "cubic", 2)]):
@@ -928,11 +956,12 @@ def plan(run):
             add("neighbors", cfg, {"mode": "nn", "param": rng.randint(3, 6)}, reps=reps)
             add("neighbors", cfg, {"mode": "cut", "param": rng.choice(["1.35", "1.62"])}, kinds=["translate", "lshift", "relabel", "axes"], reps=reps)
         # open clusters: rotations
-        c3 = gen_config(rng, 3, rng.randint(12, 18), cell="cubic", ppp=[0, 0, 0], Lrange=(9.0, 12.0), spread=3.0, K=2)
-        c2 = gen_config(rng, 2, rng.randint(10, 16), cell="cubic", ppp=[0, 0], Lrange=(9.0, 12.0), spread=3.5)
+        c3 = gen_config(rng, 3, rng.randint(12, 18), cell="cubic", ppp=[0, 0, 0], Lrange=(9.0, 12.0), spread=3.0, K=2, minsep=0.8)
+        c2 = gen_config(rng, 2, rng.randint(10, 16), cell="cubic", ppp=[0, 0], Lrange=(9.0, 12.0), spread=4.5, minsep=0.8)
         add("neighbors", c3, {"mode": "nn", "param": 4}, kinds=["rot"], reps=reps)
         add("boo3d", c3, {"l": rng.choice([4, 6]), "mode": "nn", "param": rng.randint(4, 8)}, kinds=["rot", "relabel", "translate", "axes"], reps=reps)
-        add("boo2d", c2, {"l": rng.choice([4, 6, 5]), "mode": "nn", "param": rng.randint(3, 6)}, kinds=["rot", "relabel", "translate", "axes"], reps=reps)
+        add("boo2d", c2, {"l": rng.choice([4, 6]), "mode": "nn", "param": rng.randint(3, 6)}, kinds=["rot", "relabel", "translate", "axes"], reps=reps)
+        add("boo2d", c2, {"l": rng.choice([3, 5]), "mode": "nn", "param": rng.randint(3, 6)}, kinds=["rot", "axes"], reps=reps)
         add("tetra", c3, {}, kinds=["rot", "relabel", "translate", "axes"], reps=reps)
         sig, eps, rc = mixture_params(2)
         add("hessian", c3, {"model": "lj", "masses": ["1.0", "2.5"], "eps": eps, "sig": sig, "rc": rc}, kinds=["rot", "swap"], reps=reps)
@@ -945,11 +974,11 @@ def plan(run):
         p3 = gen_config(rng, 3, rng.randint(12, 16), cell=rng.choice(["orth", "tri"]), K=2, Lrange=(3.0, 4.0))
         p2 = gen_config(rng, 2, rng.randint(12, 16), cell=rng.choice(["orth", "tri"]), Lrange=(3.5, 5.0))
         add("boo3d", p3, {"l": rng.choice([4, 6]), "mode": "nn", "param": rng.randint(4, 8)}, kinds=["translate", "lshift", "relabel", "axes"], reps=reps)
-        add("boo2d", p2, {"l": rng.choice([4, 6]), "mode": "cut", "param": "1.7"}, kinds=["translate", "lshift", "relabel", "axes"], reps=reps)
+        add("boo2d", p2, {"l": rng.choice([4, 6, 5]), "mode": "cut", "param": "1.7"}, kinds=["translate", "lshift", "relabel", "axes"], reps=reps)
         add("tetra", p3, {}, kinds=["translate", "lshift", "relabel", "axes"], reps=reps)
         add("s2", p3, {"sigmas": [["0.12", "0.15"], ["0.15", "0.2"]], "rdelta": "0.07", "ndelta": 20},
             kinds=["translate", "lshift", "relabel", "swap", "axes"], reps=reps)
-        ph = gen_config(rng, rng.choice([2, 3]), rng.randint(8, 11), cell=rng.choice(["orth", "tri"]), K=2, Lrange=(4.2, 5.0))
+        ph = gen_config(rng, rng.choice([2, 3]), rng.randint(8, 11), cell=rng.choice(["orth", "tri"]), K=2, Lrange=(4.2, 5.0), minsep=0.8)
         add("hessian", ph, {"model": rng.choice(["lj", "ipl"]), "ipl_n": "10", "masses": ["1.0", "2.5"], "eps": eps, "sig": sig, "rc": rc},
             kinds=["translate", "lshift", "relabel", "swap", "axes"], reps=reps)
         for coords in ("x", "xu"):
@@ -963,7 +992,8 @@ def plan(run):
         if full is None:
             continue
         kinds_small = ["translate", "relabel"] if quick else None
-        add("gr", full, {"rdelta": "0.0517" if nd == 3 else "0.0713"}, kinds=(["translate", "axes"] if quick else None))
+        add("gr", full, {"rdelta": "0.0517"}, kinds=(["translate", "axes"] if quick else None),
+            alt={"rdelta": ["0.0517", "0.0713", "0.0611", "0.0823", "0.0467", "0.0931", "0.1013", "0.0557"]})
         add("sq", sample_config(name, nd, nmax=200), {"qrange": "1.6" if nd == 3 else "1.3"}, kinds=kinds_small)
         add("neighbors", sample_config(name, nd, nmax=300), {"mode": "nn", "param": 12 if nd == 3 else 6}, kinds=kinds_small)
         cl = sample_config(name, nd, center_cluster=40)
